@@ -1,7 +1,7 @@
 (* C19 -- info reports the recorded history truthfully.  Statements only.  The model's info observation is the list
    of printed items (history headers, generation lines, per-digest lines); their textual layout and the creation dates
    are checked on the implementation by the oracle. *)
-From MHL Require Import Model.Commands Gen.Generated Proofs.BaseFacts Proofs.InfoFacts.
+From MHL Require Import Model.Commands Gen.Generated Proofs.BaseFacts Proofs.InfoFacts Proofs.TreeFacts Proofs.InfoTreeFacts.
 
 (* info: the history's lines start with exactly its generations in load order (ascending 1..n by C06) *)
 Theorem C19_generations_listed : forall k hs h,
@@ -37,3 +37,15 @@ Proof. exact entry_lines_count. Qed.
 Theorem C19_info_sf_no_history : forall C cdig t hs file, load C cdig t = inl hs -> lh_gens (root_hist hs) = [] ->
   o_outcome (snd (info_sf C cdig t file)) = Exit exit_no_history.
 Proof. exact info_sf_no_history. Qed.
+
+(* EVERY NESTED HISTORY EXACTLY ONCE: the lines `info` prints for a folder (C19_info_root: IHist [] followed by
+   info_lines (S (length hs)) hs (root_hist hs)) name every history below the folder exactly once -- no history twice, none
+   left out, however deep the nesting; the recursion's fuel always suffices.  (ihists = the history lines of a listing.)
+   Uses: distinct roots of loaded histories, children before parents, every nested history has a parent, the ancestors
+   of a history form a chain. *)
+Theorem C19_every_nested_history_once : forall C cdig t hs, wf_tree C t -> load C cdig t = inl hs ->
+  let rooth := root_hist hs in
+  NoDup (ihists (info_lines (S (length hs)) hs rooth)) /\
+  (forall r, In r (ihists (info_lines (S (length hs)) hs rooth)) <-> exists d, In d hs /\ d <> rooth /\ lh_root d = r).
+Proof. exact info_lists_every_history_once. Qed.
+Print Assumptions C19_every_nested_history_once.
